@@ -119,7 +119,7 @@ theorem residual_from_ode_spec (idxs : List ℕ) (vf : List (List (Expr K))) (u 
       = u (idxs.getD q 0) a - eval id u t ((vf.getD q []).getD a (const 0)) := by
   unfold residualFromOde
   simp only [List.getD_eq_getElem?_getD, List.getElem?_zipWith, List.getElem?_eq_getElem hq,
-    List.getElem?_eq_getElem hq', Option.map₂_some_some, Option.getD_some] at ha ⊢
+    List.getElem?_eq_getElem hq', Option.getD_some] at ha ⊢
   simp only [List.getElem?_map, List.getElem?_range ha, Option.map_some, Option.getD_some, eval]
   ring
 
@@ -171,14 +171,14 @@ theorem pd_is_partial_derivative (g : Expr K) (u : ℕ → ℕ → K) (t : K) (k
       · simp [eval, pd, h]
   | time => simp [eval, pd]
   | add p q ihp ihq =>
-      simp only [eval, pd, ihp, ihq, id, inl_add, add_smul]; abel
+      simp only [eval, pd, ihp, ihq, inl_add, add_smul]; abel
   | mul p q ihp ihq =>
-      simp only [eval, pd, ihp, ihq, id]
+      simp only [eval, pd, ihp, ihq]
       ext
       · simp
       · simp [DualNumber.snd_eps]; ring
   | neg p ih =>
-      simp only [eval, pd, ih, id, inl_neg, neg_smul]; abel
+      simp only [eval, pd, ih, inl_neg, neg_smul]; abel
 
 end partial_derivative
 
@@ -274,7 +274,7 @@ theorem ts1_eq_residual (n d Kk : ℕ) (f : List (Expr K)) (ξ : List (List K)) 
       rw [if_pos h, if_pos h']; simp only [eval, id_eq]; ring
     · have h' : ¬ (j.val / d = Kk ∧ j.val % d = a.val) := fun hh => h ⟨hh.1.symm, hh.2.symm⟩
       rw [if_neg h, if_neg h']; simp only [eval, id_eq]; ring
-  · simp only [evalOn, eval, id]; ring
+  · simp only [evalOn, eval]; ring
 
 /-! ### TS0 -/
 
